@@ -7,6 +7,12 @@ if os.environ.get("SC_REPO") and os.path.realpath(os.environ["SC_REPO"]) != "/re
     EVIDENCE_DIR = os.path.join(os.environ.get("TMPDIR", "/tmp"), "scverif-evidence-scratch")
 else:
     EVIDENCE_DIR = os.path.join(VERIF, "evidence")
+if os.environ.get("SC_EVIDENCE_DIR"):
+    # a feature-subset run of the thorough tier: its report goes next to the replay files, the property's evidence file is
+    # written by the all-features run that aggregates them
+    EVIDENCE_DIR = os.environ["SC_EVIDENCE_DIR"]
+SUBSET_MODE = bool(os.environ.get("SC_FEATURES"))
+EXTRA_COVERAGE = {}      # set by ./check for the thorough tier: per-configuration results of the feature-subset runs
 REPLAY_DIR = os.path.join(EVIDENCE_DIR, "replay")
 KNOWN = os.path.join(VERIF, "known_findings.json")
 
@@ -60,7 +66,7 @@ class Run:
         self.broken.append({"what": what, "detail": detail})
 
     def floor(self, name, got, at_least):
-        if got < at_least:
+        if got < at_least and not SUBSET_MODE:      # (a feature subset has fewer evaluators: the all-features run enforces the floors)
             self.fail_closed("floor %s: matched %d instances, expected at least %d" % (name, got, at_least))
         self.coverage_extra.setdefault("floors", {})[name] = {"got": got, "at_least": at_least}
         return got >= at_least
@@ -98,6 +104,7 @@ class Run:
         if exhaustive is not None:
             cov["exhaustive"] = exhaustive
         cov.update(self.coverage_extra)
+        cov.update(EXTRA_COVERAGE)
         ev = {
             "property_id": self.pid,
             "tier": self.tier,
